@@ -53,9 +53,11 @@ func (c *APIKey) Apply(_ context.Context, req *http.Request) error {
 func (c *APIKey) Hash() []byte {
 	hash := sha256.New()
 
-	hash.Write(stringx.ToBytes(c.In))
-	hash.Write(stringx.ToBytes(c.Name))
-	hash.Write(stringx.ToBytes(c.Value))
+	// every part is followed by a separator, so that adjacent parts cannot run into each other
+	for _, part := range []string{c.In, c.Name, c.Value} {
+		hash.Write(stringx.ToBytes(part))
+		hash.Write([]byte{0})
+	}
 
 	return hash.Sum(nil)
 }
